@@ -19,6 +19,7 @@ RULE = ("generated primitives (interval, circle, sphere, parallelogram / triangl
         "compositions: union declared disjoint, cut declared contained, independent products, translate, rotate, user-set "
         "volumes (number and function of the parameters); densities with d*measure in [1, 3000]; non-trivial = a returned "
         "volume or count was compared with the closed form; distinct = (workload kind, shape, target, k class, dependence)")
+RULE += "; user volumes given as number / 0-d / (1,1) tensor with part and composite re-evaluated; volume() of D(**row) against the row's measure (directly and through Translate); a sixth of the cases at other length scales"
 REQUIRED_REACH = ["Circle._get_volume", "CircleBoundary._get_volume", "Sphere._get_volume", "SphereBoundary._get_volume",
                   "Parallelogram._get_volume", "ParallelogramBoundary._get_volume", "Triangle._get_volume",
                   "TriangleBoundary._get_volume", "Interval._get_volume", "IntervalBoundary._get_volume",
